@@ -8,6 +8,19 @@ unit table what the optimizer must see and compares
   values     get_design_var_values / get_objective_values / get_constraint_values (driver_scaling T/F)
   bounds     autoscaler.get_bounds_scaling('design_var'|'constraint')  vs the image of the declared bounds
   round trip set optimizer-space values -> model (get_val) -> get optimizer-space values
+  write paths every way a driver writes a design variable, each followed by the model value (get_val) and
+             get_design_var_values(driver_scaling=False / True):  the optimizer vector + _set_design_vars (the
+             round trip above);  Driver._set_design_var(name, value[, set_remote][, units]) without units (value
+             in the declared units - what DOEDriver, SimpleGADriver, DifferentialEvolutionDriver and the pymoo
+             mixed path call), with units= the declared units, with units= another unit of the family;  the
+             public Driver.set_design_var (counted as guard while its expired deprecation makes it refuse every
+             call);  a DOEDriver run over a ListGenerator (two cases, the second possibly naming a subset);  one
+             generation of DifferentialEvolutionDriver / SimpleGADriver (every point they write, observed at
+             Driver._set_design_var / _run_solve_nonlinear).  Entries of the source that the design variable
+             does not address (indices) must keep their values.
+  GA / DE    the start is a member of the first generation (the start handed to the algorithm and the values it
+             writes live in one space) and the penalized objective compares each constraint value with its
+             bound in one space (both driver-scaled or both in declared units)
   jacobians  Driver._compute_totals (flat_dict / dict / array; all responses, and the linear-constraint
              Jacobian the optimizers request) and Problem.compute_totals(driver_scaling=True)
   multipliers compute_lagrange_multipliers(driver_scaling=False) at the exact optimum vs the KKT multipliers
@@ -29,7 +42,11 @@ RULE = ('random QP-harness problems (1-4 design variables in 1-2 inputs incl. in
         '1-2 constraints incl. indices+alias, equality/inequality, scalar/array bounds with holes, linear flag) x '
         'scalings {none, scaler/adder, ref/ref0} x {scalar, array} x declared units (length/time/temperature with '
         'offsets) ; a separate stratum uses negative scalers; distinct = distinct (structure incl. scaling tags, '
-        'observable); non-trivial = at least one variable of interest carries a scaling or a unit conversion')
+        'observable); non-trivial = at least one variable of interest carries a scaling or a unit conversion; '
+        'write paths: Driver._set_design_var {no units, units=declared, units=other unit} x value form {array, '
+        'list, float} x set_remote on every case, DOEDriver(ListGenerator) on every 2nd case, one generation '
+        '(pop_size 4) of DifferentialEvolutionDriver / SimpleGADriver (10-14 bits, gray or not) on every 4th '
+        'case each, with finite two-sided design-variable bounds around the start and one-sided constraints')
 LEVEL_TEXT = ('sampled exploration; each observable compared elementwise with the closed form. No symbolic proof '
               'of the affine formulas (out of reach of this technique).')
 ASSUMPTIONS = [
@@ -42,13 +59,26 @@ ASSUMPTIONS = [
     'bounds are >= 1e-4 (scaled) away, and the scaled active Jacobian has condition <= 1e6',
     'tolerances: values/bounds/round-trip 1e-12 relative to the magnitudes of the operands of the affine maps; '
     'jacobians 1e-10 relative to the largest entry of the block; multipliers 1e-7*cond',
+    'a value given to Driver._set_design_var / listed in a DOE case is the unscaled design-variable value in the '
+    'declared units (in `units` when units= is passed); get_design_var_values(driver_scaling=False) must return '
+    'it and the model must hold its image under the unit map',
+    'SimpleGADriver / DifferentialEvolutionDriver put the start into the first generation (DE verbatim, GA '
+    'rounded to the resolution (upper-lower)/(2**bits-1) of its encoding); their penalized objective is '
+    'objective (driver-scaled) + penalty_parameter * sum(violation ** penalty_exponent); either space is '
+    'accepted for the violations as long as value and bound share it (not judged with negative scalers)',
 ]
 MIN_JUDGED = {'quick': 300, 'thorough': 5000}
 REQUIRED_COUNTERS = ['obs:values', 'obs:bounds', 'obs:roundtrip', 'obs:jac:_compute_totals:flat_dict',
                      'obs:jac:_compute_totals:array', 'obs:jac:_compute_totals:dict',
                      'obs:jac:problem.compute_totals', 'obs:jac:linear-constraints', 'obs:lagrange-compared',
                      'obs:array-scaler', 'obs:ref-ref0', 'obs:units', 'obs:offset-units', 'obs:indices',
-                     'obs:alias', 'obs:equality', 'obs:inf-bound-preserved']
+                     'obs:alias', 'obs:equality', 'obs:inf-bound-preserved',
+                     'obs:write:_set_design_var', 'obs:write:explicit-other-units', 'obs:write:doe-list',
+                     'obs:write:de', 'obs:write:ga', 'obs:write:declared-units-implied:_set_design_var',
+                     'obs:write:declared-units-implied:doe-list', 'obs:write:declared-units-implied:de',
+                     'obs:write:declared-units-implied:ga', 'obs:write:declared-offset-units-implied',
+                     'obs:evo:start-in-first-generation:de', 'obs:evo:start-in-first-generation:ga',
+                     'obs:evo:penalty-judged', 'obs:evo:penalty-discriminating']
 SHARD_TIMEOUT = {'quick': 600, 'thorough': 3000}
 
 
@@ -227,6 +257,16 @@ def judge(case, acc):
         except Exception as e:   # noqa
             flag('roundtrip:raises:%s' % type(e).__name__, str(e)[:200])
 
+        # ---- every other write path of a design variable ------------------------------------------
+        if case.get('wp'):
+            _write_paths(acc, p, drv, ref, spec, zz, case, neg, flag)
+            qpmodel.set_z(p, spec, zz)
+            p.run_model()
+            if case['wp'].get('doe'):
+                _doe_path(acc, ref, spec, zz, case, neg, flag)
+            if case['wp'].get('evo'):
+                _evo_path(acc, ref, spec, case, neg, flag)
+
         # ---- jacobians ---------------------------------------------------------------------
         Jref = ref.jac(zz, scaled=True)
         lin = [c['key'] for c in ref.cons if c['d'].get('linear')]
@@ -328,6 +368,370 @@ def judge(case, acc):
                 p.cleanup()
             except Exception:
                 pass
+
+
+# ----------------------------------------------------------------------------------------------
+# write paths of design variables other than the optimizer vector
+# ----------------------------------------------------------------------------------------------
+def _val_form(v, form):
+    v = np.asarray(v, float).ravel()
+    if form == 'float' and v.size == 1:
+        return float(v[0])
+    if form == 'list':
+        return v.tolist()
+    return v.copy()
+
+
+def _expect_after_write(ref, z_prev, written):
+    """Closed form of the model after design variables were written.
+
+    written = {key: (values, units of the values or None = the declared units of the design variable)};
+    entries of z that are not addressed (other inputs, elements outside `indices`) keep their value.
+    Returns z, its round-off tolerance, and {key: values in declared units}."""
+    z = np.array(z_prev, float)
+    tolz = np.full(ref.n, 1e-300)
+    decl = {}
+    for d in ref.dvs:
+        if d['key'] not in written:
+            continue
+        v, u = written[d['key']]
+        v = np.asarray(v, float).ravel() * np.ones(d['size'])
+        src = d['units'] if u is None else u
+        fac, off = af.unit_affine(src, d['munits'])
+        z[d['pos']] = (v + off) * fac
+        tolz[d['pos']] = 1e-12 * (np.abs(z[d['pos']]) + abs(fac) * (np.abs(v) + abs(off)) + 1e-30)
+        decl[d['key']] = v if u is None else af.to_units(z[d['pos']], d['munits'], d['units'])
+    return z, tolz, decl
+
+
+def _judge_written(acc, flag, path, p, drv, ref, spec, z_prev, written, neg):
+    """model state and both read paths after a write, against the closed form.
+    -> the model state (the observed one after a disagreement, so that one wrong write is reported once)."""
+    from omv.gen import qpmodel
+    z_want, tolz, decl = _expect_after_write(ref, z_prev, written)
+    z_got = qpmodel.get_z(p, spec)
+    acc.count('obs:write:' + path.split(':')[0])
+    touched = [d for d in ref.dvs if d['key'] in written]
+    if any(written[d['key']][1] is None and d['units'] != d['munits'] for d in touched):
+        # value handed over without units= for a design variable whose declared units differ from the model's
+        acc.count('obs:write:declared-units-implied:' + path.split(':')[0])
+        if any(written[d['key']][1] is None and af.unit_affine(d['units'], d['munits'])[1] != 0.0 for d in touched):
+            acc.count('obs:write:declared-offset-units-implied')
+    if z_got.shape != z_want.shape or not np.all(np.abs(z_got - z_want) <= tolz):
+        def err(d):
+            return float(np.max(np.abs(z_got[d['pos']] - z_want[d['pos']]) / tolz[d['pos']]))
+        worst = max(touched, key=err) if touched else None
+        if worst is None or err(worst) <= 1.0:
+            flag('write:%s:model-value:entries-not-addressed-changed' % path,
+                 'wrote %s; model z=%s, want %s' % ({k: np.asarray(v[0]).tolist() for k, v in written.items()},
+                                                    z_got.tolist(), z_want.tolist()))
+            return z_got
+        v, u = written[worst['key']]
+        v = np.asarray(v, float).ravel() * np.ones(worst['size'])
+        src = worst['units'] if u is None else u
+        g_ = z_got[worst['pos']]
+        tl = 1e3 * tolz[worst['pos']]
+        inv = af.to_units(v, worst['munits'], src)
+        idx = ':indices' if worst['d'].get('indices') is not None else ''
+        if src != worst['munits'] and np.all(np.abs(g_ - inv) <= tl + 1e-9 * np.abs(inv)):
+            key = 'write:%s:model-value:inverse-unit-map%s%s' % (
+                path, ':offset-units' if af.unit_affine(src, worst['munits'])[1] != 0.0 else '', idx)
+        elif src != worst['munits'] and np.all(np.abs(g_ - v) <= tl + 1e-12 * np.abs(v)):
+            key = 'write:%s:model-value:units-ignored%s' % (path, idx)
+        else:
+            key = 'write:%s:model-value:value%s%s' % (path, ':units' if src != worst['munits'] else '', idx)
+        flag(key, '%s: wrote %s [%s]; model holds %s [%s], want %s' % (
+            worst['key'], v.tolist(), src, g_.tolist(), worst['munits'], z_want[worst['pos']].tolist()))
+        return z_got
+    for ds in (False, True):
+        try:
+            back = drv.get_design_var_values(driver_scaling=ds)
+        except Exception as e:   # noqa
+            flag('write:%s:get-after-set:raises:%s' % (path, type(e).__name__), str(e)[:200])
+            continue
+        for d in touched:
+            want = af.scale(decl[d['key']], d['sc']) if ds else decl[d['key']]
+            b_ = np.asarray(back.get(d['key'], np.nan), float).ravel()
+            tol = 4e-12 * (_mag(d, z_want[d['pos']]) + np.abs(want) + 1.0)
+            if b_.shape != want.shape or not np.all(np.abs(b_ - want) <= tol):
+                flag('write:%s:get-%s-after-set-not-the-value-set:%s' % (
+                    path, 'scaled' if ds else 'unscaled', _stratum(d, neg)),
+                    '%s: wrote %s [%s], model %s, get_design_var_values(driver_scaling=%s) gives %s, want %s' % (
+                        d['key'], np.asarray(written[d['key']][0]).tolist(), written[d['key']][1] or d['units'],
+                        z_want[d['pos']].tolist(), ds, b_.tolist(), want.tolist()))
+    return z_want
+
+
+def _family(u):
+    for fam in af.FAMILIES.values():
+        if u in fam:
+            return fam
+    return None
+
+
+def _write_paths(acc, p, drv, ref, spec, zz, case, neg, flag):
+    """Driver._set_design_var (the entry DOE/GA/DE/pymoo use) and the public Driver.set_design_var:
+    without units (value in the declared units), with units= the declared units, with units= another unit."""
+    from omv.gen import qpmodel
+    rng = np.random.default_rng(case.get('yseed', 0) + 1)
+    cur = ref.dv_vals(zz)
+    for variant in ('no-units', 'units=declared', 'units=other', 'public'):
+        written = {}
+        calls = []
+        for d in ref.dvs:
+            form = ('array', 'list', 'float')[rng.integers(3)]
+            set_remote = bool(rng.integers(2))
+            u = None
+            if variant == 'units=declared' and d['units'] is not None:
+                u = d['units']
+            elif variant == 'units=other' and d['munits'] is not None:
+                fam = _family(d['munits'])
+                u = fam[rng.integers(len(fam))]
+            if u is None or u == d['units']:
+                v = np.round(cur[d['key']]['declared'] + rng.normal(size=d['size']), 6)
+            else:
+                v = np.round(af.to_units(zz[d['pos']] + rng.normal(size=d['size']), d['munits'], u), 6)
+            written[d['key']] = (v, u)
+            calls.append((d['key'], _val_form(v, form), set_remote, u))
+        if variant in ('units=declared', 'units=other') and all(c[3] is None for c in calls):
+            continue
+        z_prev = qpmodel.get_z(p, spec)
+        path = '_set_design_var' if variant != 'public' else 'set_design_var'
+        try:
+            for name, val, set_remote, u in calls:
+                if variant == 'public':
+                    drv.set_design_var(name, val)
+                elif u is None:
+                    drv._set_design_var(name, val, set_remote=set_remote)
+                else:
+                    drv._set_design_var(name, val, set_remote=set_remote, units=u)
+        except RuntimeError as e:
+            if variant == 'public' and 'Deprecation message expired' in str(e):
+                # the public method is past the expiry of its deprecation: it refuses every call
+                acc.count('guard:write:public-set_design_var-deprecation-expired')
+                continue
+            flag('write:%s:raises:RuntimeError' % path, str(e)[:200])
+            continue
+        except Exception as e:   # noqa
+            flag('write:%s:raises:%s' % (path, type(e).__name__), str(e)[:200])
+            continue
+        if variant == 'units=other':
+            acc.count('obs:write:explicit-other-units')
+        _judge_written(acc, flag, path + ('' if variant in ('no-units', 'public') else ':' + variant),
+                       p, drv, ref, spec, z_prev, written, neg)
+
+
+def _hook_evals(drv, on_eval):
+    orig = drv._run_solve_nonlinear
+
+    def wrapped(*a, **k):
+        on_eval()
+        return orig(*a, **k)
+    drv._run_solve_nonlinear = wrapped
+
+
+def _doe_path(acc, ref, spec, zz, case, neg, flag):
+    """DOEDriver + ListGenerator: the listed values are design-variable values in declared units."""
+    import openmdao.api as om
+    from omv.gen import qpmodel
+    rng = np.random.default_rng(case.get('yseed', 0) + 2)
+    cur = ref.dv_vals(zz)
+    doe = []
+    for k in range(2):
+        dvs = list(ref.dvs)
+        if k == 1 and len(dvs) > 1 and rng.random() < 0.5:
+            dvs = [dvs[rng.integers(len(dvs))]]          # a case may name a subset of the design variables
+        doe.append({d['key']: np.round(cur[d['key']]['declared'] + rng.normal(size=d['size']), 6) for d in dvs})
+    forms = {d['key']: ('array', 'list', 'float')[rng.integers(3)] for d in ref.dvs}
+    p = None
+    try:
+        drv = om.DOEDriver(om.ListGenerator([[(k, _val_form(v, forms[k])) for k, v in c.items()] for c in doe]))
+        p, comp = qpmodel.build(spec, driver=drv)
+        qpmodel.set_z(p, spec, zz)
+        p.final_setup()
+        state = {'z': np.array(zz, float), 'n': 0}
+
+        def on_eval():
+            if state['n'] < len(doe):
+                written = {k: (v, None) for k, v in doe[state['n']].items()}
+                state['z'] = _judge_written(acc, flag, 'doe-list', p, drv, ref, spec, state['z'], written, neg)
+            state['n'] += 1
+        _hook_evals(drv, on_eval)
+        p.run_driver()
+        if state['n'] != len(doe):
+            flag('write:doe-list:number-of-evaluations', '%d listed cases, %d model evaluations' % (
+                len(doe), state['n']))
+    except Exception as e:   # noqa
+        flag('write:doe-list:raises:%s' % type(e).__name__, str(e)[:200])
+    finally:
+        if p is not None:
+            try:
+                p.cleanup()
+            except Exception:
+                pass
+
+
+def _evo_spec(spec, ref, zz, rng):
+    """the spec with what SimpleGADriver/DifferentialEvolutionDriver need: finite two-sided bounds on every
+    design variable (around the start), one-sided or equality constraints, no linear flag."""
+    import copy
+    sp = copy.deepcopy(spec)
+    sp['x0'] = np.asarray(zz, float).tolist()
+    cur = ref.dv_vals(np.asarray(zz, float))
+    for dd, d in zip(sp['dvs'], ref.dvs):
+        vd = cur[d['key']]['declared']
+        w = abs(af.unit_affine(d['munits'], d['units'])[0])
+        if rng.random() < 0.5:
+            dd['lower'] = float(vd.min() - w * rng.uniform(0.5, 1.5))
+            dd['upper'] = float(vd.max() + w * rng.uniform(0.5, 1.5))
+        else:
+            dd['lower'] = (vd - w * rng.uniform(0.5, 1.5, size=vd.size)).tolist()
+            dd['upper'] = (vd + w * rng.uniform(0.5, 1.5, size=vd.size)).tolist()
+    for cd in sp['cons']:
+        cd['linear'] = False
+        if cd.get('equals') is None and cd.get('lower') is not None and cd.get('upper') is not None:
+            cd['upper' if rng.random() < 0.5 else 'lower'] = None
+    return sp
+
+
+def _evo_path(acc, ref0, spec0, case, neg, flag):
+    """SimpleGADriver / DifferentialEvolutionDriver, one generation of a minimal population.
+
+    Every point they write through Driver._set_design_var is judged like any other write; the start (the
+    model's design when run_driver is called) must be a member of the first generation (exactly for DE, to the
+    resolution of the encoding for the GA) - whatever space the algorithm works in, the point it is handed as
+    the start must be written back as the start; the penalized objective of one of its own points must be the
+    (driver-scaled) objective plus penalty * sum(violation ** exponent) with value and bound of each
+    constraint in one and the same space (both driver-scaled or both in declared units)."""
+    import openmdao.api as om
+    from omv.gen import qpmodel
+    kind = case['wp']['evo']
+    rng = np.random.default_rng(case.get('yseed', 0) + 3)
+    zz = np.asarray(case['z'], float)
+    spec = _evo_spec(spec0, ref0, zz, rng)
+    ref = qpspec.RefModel(spec)
+    bits = int(rng.integers(10, 15))
+    p = None
+    try:
+        if kind == 'de':
+            drv = om.DifferentialEvolutionDriver(max_gen=0, pop_size=4)
+        else:
+            drv = om.SimpleGADriver(max_gen=0, pop_size=4, bits={d['key']: bits for d in ref.dvs},
+                                    gray=bool(rng.integers(2)))
+        drv._randomstate = int(rng.integers(1 << 30))
+        p, comp = qpmodel.build(spec, driver=drv)
+        p.final_setup()
+        zz = qpmodel.get_z(p, spec)
+        last = {}
+        state = {'z': np.array(zz, float), 'pts': []}
+        orig_set = drv._set_design_var
+
+        def set_wrapped(name, value, set_remote=True, units=None):
+            last[name] = (np.array(value, float).ravel().copy(), units)
+            return orig_set(name, value, set_remote=set_remote, units=units)
+        drv._set_design_var = set_wrapped
+
+        def on_eval():
+            if last:
+                state['z'] = _judge_written(acc, flag, kind, p, drv, ref, spec, state['z'], dict(last), neg)
+                if len(last) == len(ref.dvs) and all(u is None for _, u in last.values()):
+                    state['pts'].append(np.concatenate([last[d['key']][0] for d in ref.dvs]))
+        _hook_evals(drv, on_eval)
+        p.run_driver()
+    except Exception as e:   # noqa
+        flag('evo:run_driver-raises:%s:%s' % (type(e).__name__, kind), str(e)[:200])
+        if p is not None:
+            p.cleanup()
+        return
+    try:
+        pts = state['pts']
+        if not pts:
+            acc.count('guard:evo:no-point-observed')
+            return
+        # ---- the start is a member of the first generation
+        cur = ref.dv_vals(zz)
+        d0 = np.concatenate([cur[d['key']]['declared'] for d in ref.dvs])
+        s0 = np.concatenate([cur[d['key']]['scaled'] for d in ref.dvs])
+        lo = np.concatenate([ref.bounds(d)[0] for d in ref.dvs])
+        hi = np.concatenate([ref.bounds(d)[1] for d in ref.dvs])
+        mag = np.concatenate([_mag(d, zz[d['pos']]) / np.abs(af.scaler_adder(d['sc'], d['size'])[0])
+                              for d in ref.dvs])
+        if kind == 'de':
+            tol = 4e-12 * (mag + np.abs(d0) + 1.0)
+        else:
+            tol = 0.5 * (hi - lo) / (2.0 ** bits - 1.0) * (1.0 + 1e-9) + 4e-12 * (mag + np.abs(d0) + 1.0)
+        acc.count('obs:evo:start-in-first-generation:' + kind)
+        if not any(np.all(np.abs(x - d0) <= tol) for x in pts):
+            nontriv = [d for d in ref.dvs if af.scaling_tags(d['sc'], d['size']) != ['noscale']]
+            s0c = np.minimum(np.maximum(s0, lo), hi) if kind == 'ga' else s0
+            if nontriv and any(np.all(np.abs(x - s0c) <= tol + 1e-9 * np.abs(s0c)) for x in pts):
+                key = 'evo:start-handed-over-driver-scaled-but-written-back-unscaled:%s' % kind
+            else:
+                key = 'evo:start-not-in-first-generation:%s' % kind
+            flag(key, 'start (declared units) %s, driver-scaled %s; points written %s' % (
+                d0.tolist(), s0.tolist(), [x.tolist() for x in pts[:6]]))
+        # ---- penalized objective of one of the driver's own points
+        if not neg and hasattr(drv, 'objective_callback'):
+            x = pts[int(rng.integers(len(pts)))]
+            last.clear()
+            try:
+                fun = float(np.asarray(drv.objective_callback(np.array(x), 0)[0]).ravel()[0])
+            except Exception as e:   # noqa
+                flag('evo:objective_callback-raises:%s:%s' % (type(e).__name__, kind), str(e)[:200])
+                return
+            z = state['z']
+            pen = float(drv.options['penalty_parameter'])
+            ex = float(drv.options['penalty_exponent'])
+            fo = ref.obj_vals(z)['f']
+            f_s = float(fo['scaled'][0])
+            s_f, a_f = af.scaler_adder(ref.obj['sc'], 1)
+            uf, uo = af.unit_affine(ref.obj['munits'], ref.obj['units'])
+            magf = abs(s_f[0]) * (abs(a_f[0]) + abs(uf) * (0.5 * np.abs(z) @ np.abs(ref.Q) @ np.abs(z) +
+                                                          np.abs(ref.c) @ np.abs(z) + abs(uo)))
+
+            def viol(val, lo_, hi_, eq):
+                if eq:
+                    return np.abs(val - lo_)
+                out = np.zeros(val.size)
+                fl = np.abs(lo_) < af.INF_BOUND
+                fh = np.abs(hi_) < af.INF_BOUND
+                out[fl] = np.maximum(out[fl], (lo_ - val)[fl])
+                out[fh] = np.maximum(out[fh], (val - hi_)[fh])
+                return out
+            tot = {'scaled': 0.0, 'declared': 0.0, 'mixed': 0.0}
+            magc = 0.0
+            cv = ref.con_vals(z)
+            for c in ref.cons:
+                lo_, hi_ = ref.bounds(c)
+                eq = c['d'].get('equals') is not None
+                lo_s, hi_s, _, _ = af.image_bounds(lo_, hi_, c['sc'])
+                t = cv[c['key']]
+                tot['scaled'] += float(np.sum(viol(t['scaled'], lo_s, hi_s, eq) ** ex))
+                tot['declared'] += float(np.sum(viol(t['declared'], lo_, hi_, eq) ** ex))
+                tot['mixed'] += float(np.sum(viol(t['scaled'], lo_, hi_, eq) ** ex))
+                fin = lambda b: np.where(np.abs(b) < af.INF_BOUND, np.abs(b), 0.0)   # noqa
+                sc_, _ = af.scaler_adder(c['sc'], c['size'])
+                m_ = _mag(c, t['model']) + np.abs(sc_) * (fin(lo_) + fin(hi_))
+                magc += float(np.sum(np.maximum(m_, m_ / np.abs(sc_)) + fin(lo_) + fin(hi_)))
+            tol = 1e-10 * (magf + abs(f_s) + pen * max(1.0, ex) * max(magc, magc ** ex) + 1e-300)
+            cand = {k: f_s + pen * v for k, v in tot.items()}
+            acc.count('obs:evo:penalty-judged')
+            if abs(cand['mixed'] - cand['scaled']) > 1e3 * tol and abs(cand['mixed'] - cand['declared']) > 1e3 * tol:
+                acc.count('obs:evo:penalty-discriminating')
+            if abs(fun - cand['scaled']) > tol and abs(fun - cand['declared']) > tol:
+                if abs(fun - cand['mixed']) <= tol:
+                    key = 'evo:penalty-compares-driver-scaled-constraint-value-with-unscaled-bound:%s' % kind
+                else:
+                    key = 'evo:penalty-value:%s' % kind
+                flag(key, 'point %s: penalized objective %r; objective (scaled) %r + %g*sum(viol**%g): %r with '
+                     'scaled values and scaled bounds, %r both in declared units, %r scaled values against '
+                     'declared bounds' % (x.tolist(), fun, f_s, pen, ex, cand['scaled'], cand['declared'],
+                                          cand['mixed']))
+    finally:
+        try:
+            p.cleanup()
+        except Exception:
+            pass
 
 
 def _lagrange(acc, p, drv, ref, spec, flag):
@@ -459,7 +863,10 @@ def run_shard(shard, acc):
         spec = gen(rng, neg)
         n = len(spec['x0'])
         z = np.round(np.asarray(spec['x0']) + rng.normal(size=n), 9)
-        judge({'spec': spec, 'z': z.tolist(), 'neg': neg, 'yseed': int(rng.integers(1 << 30))}, acc)
+        # write paths: direct Driver._set_design_var calls always; a DOEDriver run on every other case; one
+        # generation of DifferentialEvolutionDriver / SimpleGADriver on every fourth case each
+        wp = {'doe': i % 2 == 0, 'evo': {1: 'de', 3: 'ga'}.get(i % 4)}
+        judge({'spec': spec, 'z': z.tolist(), 'neg': neg, 'yseed': int(rng.integers(1 << 30)), 'wp': wp}, acc)
 
 
 def run_case(case, acc):
